@@ -14,13 +14,14 @@ def wrapV6 (host : Bytes) : Bytes :=
   then [LBR] ++ host ++ [RBR] else host
 
 /-- host and port in the "more than one colon" branch of `Url._parse` -/
-def v6Split (raw a c last : Bytes) : Bytes × Option Int :=
+def v6Split (hostport a c last : Bytes) : Bytes × Option Int :=
   match pyInt 10 ((splitAll1 COLON last).getLast?.getD []) with
   | some v => (a ++ [COLON] ++ c ++ [COLON] ++ join [COLON] (splitAll1 COLON last).dropLast, some v)
-  | none => (raw, none)
+  | none => (hostport, none)
 
-/-- second half of `Url._parse`, after the userinfo has been split off -/
-def hostPort (raw : Bytes) (user pass : Option Bytes) (hostport : Bytes) : Except Err AuthRes :=
+/-- second half of `Url._parse`, after the userinfo has been split off.  The first argument (the whole
+    authority) is no longer used since fix dbfef2b; it is kept so that users of these lemmas need no change. -/
+def hostPort (_raw : Bytes) (user pass : Option Bytes) (hostport : Bytes) : Except Err AuthRes :=
   match splitN1 COLON 2 hostport with
   | [h] => .ok (user, pass, h, none)
   | [h, p] =>
@@ -28,8 +29,8 @@ def hostPort (raw : Bytes) (user pass : Option Bytes) (hostport : Bytes) : Excep
     | some v => .ok (user, pass, h, some v)
     | none => .error .valueError
   | [a, c, last] =>
-    if utf8Valid (v6Split raw a c last).1 then
-      .ok (user, pass, wrapV6 (v6Split raw a c last).1, (v6Split raw a c last).2)
+    if utf8Valid (v6Split hostport a c last).1 then
+      .ok (user, pass, wrapV6 (v6Split hostport a c last).1, (v6Split hostport a c last).2)
     else .error .valueError
   | _ => .error .valueError
 
